@@ -717,6 +717,11 @@ def C03(c):
     if not quick:
         c.mc("MC_MultiChan", "2p2l", multichan(4, 2), subst={"Script": "Script_2p2l"}, invariants=MCH_STRUCT + MCH_DELIVERY, deadlock=False, required_actions=MCH_ACTIONS, timeout=1800, workers=10)
     cover.cover_multichan(c, "multichan_2p1l", [[S(11)], [S(21)], [DRIVE(0, max_=2)]], MULTI_DELIVERY, initial=1, max_paths=2500 if quick else None)
+    # the OgreArc kind (pooled payloads, reference counting around the fan-out): two racing producers, one listener -- "the very same shared allocation"
+    c.mc("MC_MultiChan", "ogre_2p1l", multichan(3, 1, kind="ogre"), subst={"Script": "Script_2p1l"}, invariants=MCH_STRUCT + MCH_DELIVERY + ["InvNoUseAfterFree", "InvPoolBounds", "InvRefsExact"], deadlock=False,
+         required_actions=MCH_ACTIONS + ["SendIncRefs", "HandleDrop"], timeout=1200, workers=8)
+    cover.cover_multichan(c, "multichan_ogre_2p1l", [[S(11)], [S(21)], [DRIVE(0, max_=2)]], MULTI_DELIVERY + ["InvNoUseAfterFree"], initial=1, kind="ogre", max_paths=1500 if quick else None,
+                          invariants=tuple(MCH_STRUCT + MCH_DELIVERY + ["InvNoUseAfterFree", "InvPoolBounds", "InvRefsExact"]))
     if not quick:
         cover.cover_multichan(c, "multichan_1p2l", [[S(11), S(12)], [DRIVE(0, max_=2)], [DRIVE(1, max_=2)]], MULTI_DELIVERY, initial=2)
     # protocol level: with a fixed listener set the fan-out loop serves every listener exactly once (both sender shapes)
